@@ -1,5 +1,5 @@
 (* Proofs/SrcTieC18.v — C18 stated about the TRANSLATED SOURCE of the Constraint class (Gen/Src_fm.v). *)
-From Coq Require Import List Bool Ascii String ZArith.
+From Coq Require Import List Bool Ascii String ZArith Lia.
 From FM Require Import Base.Result Base.Str Base.AstOp Model.Ast Model.FM Model.Ctc Model.Queries Model.Sem Model.PyRt Model.Loc
      Gen.Src_fm Proofs.C18Facts Proofs.SrcCtcFacts.
 Import ListNotations.
@@ -39,4 +39,31 @@ Proof.
   intros c fuel Hf Hwf. exists (ctc_features (c_ast c)). split.
   - now apply src_ctc_get_features.
   - now apply features_exact.
+Qed.
+
+(* ---- split_constraint, pseudo- / strict-complex (Proofs/SrcSplitFacts.v) ---- *)
+From FM Require Import Proofs.SrcSplitFacts.
+
+Lemma source_split_sound : forall c parts, node_wf (c_ast c) = true -> no_xe (c_ast c) = true ->
+  split_asts (c_ast c) = Ok parts ->
+  exists n0, forall fuel, (n0 <= fuel)%nat ->
+    exists l, py_split_constraint fuel c = Ok l /\ map c_ast l = parts /\
+              Forall (fun p => node_wf (c_ast p) = true) l /\
+              forall σ, evalb σ (c_ast c) = forallb (evalb σ) (map c_ast l).
+Proof.
+  intros c parts Hwf Hxe Hs. destruct (src_split_constraint c) as (n0 & Hn). exists n0. intros fuel Hf.
+  specialize (Hn fuel Hf). rewrite Hs in Hn.
+  destruct (py_split_constraint fuel c) as [l|e]; cbn in Hn; [|discriminate].
+  injection Hn as Hn. exists l. split; [reflexivity|]. split; [exact Hn|].
+  destruct (split_sound (c_ast c) parts Hwf Hxe Hs) as (Hall & Hev). split.
+  - rewrite <- Hn in Hall. now rewrite Forall_map in Hall.
+  - intro σ. rewrite Hn. apply Hev.
+Qed.
+
+Lemma source_pseudo_strict : forall c, exists n0, forall fuel, (n0 <= fuel)%nat ->
+  py_Constraint_is_pseudocomplex_constraint fuel c = is_pseudocomplex (c_ast c) /\
+  py_Constraint_is_strictcomplex_constraint fuel c = is_strictcomplex (c_ast c).
+Proof.
+  intro c. destruct (src_is_pseudocomplex c) as (n1 & H1). destruct (src_is_strictcomplex c) as (n2 & H2).
+  exists (Nat.max n1 n2). intros fuel Hf. split; [apply H1|apply H2]; lia.
 Qed.
